@@ -444,6 +444,19 @@ pub fn gen_input(rng: &mut Rng, pool: &Pool, mask: GenMask) -> (String, &'static
         s = mutate(rng, &s);
         name = "mutation";
     }
+    // encodings of the same drawing that text tools produce
+    match rng.below(40) {
+        0 => s = s.replace('\n', "\r\n"),
+        1 => s = format!("\u{feff}{}", s),
+        2 => s = s.replace("  ", "\t"),
+        3 => {
+            while s.ends_with('\n') {
+                s.pop();
+            }
+        }
+        4 => s.push_str("\n\n  \n"),
+        _ => {}
+    }
     (s, name)
 }
 
@@ -510,3 +523,19 @@ pub fn sibling(rng: &mut Rng, base: &str) -> String {
     }
 }
 
+
+/// Pad a text with blank lines so that it is exactly `size` bytes long (if it is
+/// shorter): inputs sitting on buffer boundaries (8 KiB, 64 KiB ...).
+pub fn pad_to(text: &str, size: usize) -> String {
+    let mut s = text.to_string();
+    if !s.ends_with('\n') {
+        s.push('\n');
+    }
+    while s.len() + 41 <= size {
+        s.push_str("                                        \n");
+    }
+    while s.len() < size {
+        s.push(' ');
+    }
+    s
+}
